@@ -7,8 +7,15 @@ SPEC_PART = dict(
     assumptions=["tdigest: using an accepted digest whose total weight is within a few units of u64::MAX overflows the weight counter on "
                  "the next update + compression (known finding tdigest-C14-weight-capacity); follow-up updates/merges are exercised for "
                  "totals below 2^62"],
-    covers="tdigest: the modelled readers (both flavours + reference formats) never reach a panic site on ANY byte string, accept only "
-           "well-shaped states (k >= 10, finite values, weights >= 1, checked totals, items present in the input) and request at most "
-           "2 bytes per input byte (Props/C14_tdigest.v); tie: mutated images of every variant (bit/byte flips, boundary counts, k and "
+    covers="tdigest: the modelled readers (both flavours + reference formats) never return Stuck on ANY byte string -- Stuck models ONE "
+           "site, assert!(k >= 10) in TDigestMut::make, reached by every Ok exit; cursor reads are total (Err on short input) and the "
+           "weight sums are the checked ones, so beyond that site the theorem is totality of the model, and overflow / indexing / "
+           "allocation failure in the real reader are observed by the harness only; accepted states are well-shaped (k >= 10, finite "
+           "values, weights >= 1, checked totals, items present in the input; NOT: sorted means or means inside [min,max], which the "
+           "reader does not check -- Props/C17_tdigest.v gives the usable-state theorem under that extra boolean check); the allocation "
+           "requests are RETURNED BY THE MODELLED READER (tdb_dec_req, proved to have the reader's outcome): at most 2 bytes per input "
+           "byte + 1,048,560 (the reference float format reserves 16 bytes per u16-counted centroid before any length check) "
+           "(Props/C14_tdigest.v); an image without centroids and buffered values no longer keeps its min/max (fixed defect "
+           "tdigest-C13-no-items-extremes, ec17cff); tie: mutated images of every variant (bit/byte flips, boundary counts, k and "
            "flags, truncation, extension, random bytes, NaN/inf/zero/huge fields, wrong flavour) -> Ok/Err class equal to the model's, no "
            "panic, no allocation beyond 64*len + 1 MiB + c0(k); every accepted digest is queried, dumped, round-tripped, updated and merged")
